@@ -20,7 +20,7 @@ from .error_code import ErrorCode
 from .extensions import assert_type, reveal_locals, reveal_type
 from .format_strings import ReplacementField, parse_format_string
 from .predicates import IsAssignablePredicate
-from .safe import hasattr_static, is_union, safe_isinstance, safe_issubclass
+from .safe import hasattr_static, is_union, safe_isinstance, safe_issubclass, safe_repr
 from .signature import (
     ANY_SIGNATURE,
     CallContext,
@@ -121,7 +121,7 @@ def _issubclass_impl(ctx: CallContext) -> Value:
     except _CannotResolve as e:
         ctx.show_error(
             f'Second argument to "issubclass" must be a type, union,'
-            f' or tuple of types, not "{e.args[0]!r}"',
+            f' or tuple of types, not "{safe_repr(e.args[0])}"',
             ErrorCode.incompatible_argument,
             arg="class_or_tuple",
         )
@@ -146,7 +146,7 @@ def _isinstance_impl(ctx: CallContext) -> Value:
     except _CannotResolve as e:
         ctx.show_error(
             f'Second argument to "isinstance" must be a type, union,'
-            f' or tuple of types, not "{e.args[0]!r}"',
+            f' or tuple of types, not "{safe_repr(e.args[0])}"',
             ErrorCode.incompatible_argument,
             arg="class_or_tuple",
         )
